@@ -1,5 +1,6 @@
 """Executable statements over a fixed schema, written in the intersection of the mindsdb dialect and SQLite syntax,
 plus random database states.  Used by C06 (renderer) and, with integration qualifiers, by C08/C11 (planner)."""
+import re
 
 SCHEMA = {
     't1': [('id', 'INTEGER'), ('a', 'INTEGER'), ('b', 'REAL'), ('c', 'TEXT')],
@@ -281,7 +282,17 @@ class Gen:
         return s, ordered
 
     def query(self):
-        """(text, ordered)"""
+        """(text, ordered); one statement in four writes its table and column aliases without AS"""
+        text, ordered = self._query()
+        if self.r.random() < 0.25:
+            # alias names are lower-case words; CAST(.. AS TYPE) and `cte AS (` are left alone
+            text2 = re.sub(r' AS (?=[a-z])', ' ', text)
+            if text2 != text:
+                self.features.add('implicit-alias')
+                text = text2
+        return text, ordered
+
+    def _query(self):
         r = self.r
         k = r.random()
         if k < 0.7:
